@@ -82,8 +82,10 @@ def run(prog, rep):
     for u in cd.units.values():
         rep.attempt(attr_linkage, rep, cd, u, rule="decoded-object-linkage")
     # a decoded block re-derives its runs (and so its size) from NaN: gap frames must decode as NaN
-    from .c05 import nan_prefill
+    from .c05 import nan_prefill, segments_derivation
     rep.attempt(nan_prefill, prog, cd, rep)
+    # nBytes and the writer both ask _segments: it must be a pure derivation (no in-place repair of the data between the two calls)
+    rep.attempt(segments_derivation, prog, cd, rep)
 
     for a in cd.assumptions:
         rep.assume(a)
